@@ -88,6 +88,7 @@ SubKeys(m, c) == {StepQ(c, q)[2] : q \in {y \in DOMAIN m : StepQ(c, y)[1] \in {"
 \* exists, or when two different entries answer the same residual address
 SubBad(m, c) == \/ \E q \in DOMAIN m : StepQ(c, q)[1] = "err"
                 \/ \E x \in SubKeys(m, c) : Cardinality(SubHits(m, c, x)) > 1
+                \/ \E x, y \in SubKeys(m, c) : CMConflict(x, y)   \* residuals (also masked-out ones) must still be a tree
 SubHoists(m, c) == c \notin StatC /\ \E q \in DOMAIN m : CMHoistable(q)
 CMSub(m, c) == [x \in SubKeys(m, c) |->
                   IF SubHits(m, c, x) # {} THEN m[CHOOSE q \in SubHits(m, c, x) : TRUE] ELSE E(0, FALSE)]
